@@ -22,6 +22,8 @@ class TagScalar:
     def coerce_output(self, v):
         if not isinstance(v, str):
             raise TypeError("Tag out needs str")
+        if not v.strip():
+            return None
         if self.label is not None:
             return "out(%s)@%s" % (v, self.label)
         return "out(%s)" % v
@@ -43,7 +45,7 @@ class EvenScalar:
     def coerce_output(self, v):
         if isinstance(v, bool) or not isinstance(v, int) or v % 2:
             raise TypeError("Even out needs even int")
-        return v
+        return None if v == 100 else v
 
     def coerce_input(self, v):
         if isinstance(v, bool) or not isinstance(v, int) or v % 2:
@@ -123,8 +125,10 @@ class GateDirective:
             await w.sched.gate("a:%s.%s@%s:%s" % (parent_node.name.value, argument_definition_node.name.value,
                                                   loc.line, loc.column), multi=True)
         if (parent_node.name.value, argument_definition_node.name.value) in w.arg_faults:
-            from vt.world import InjectedError
-            raise InjectedError("argument hook failed for %s(%s)" % (parent_node.name.value, argument_definition_node.name.value))
+            from vt.world import make_exception
+            # a plain exception, or (arg_fault_kind == "raise_tf") one derived from the library's error class
+            raise make_exception(getattr(w, "arg_fault_kind", "raise"),
+                                 "arg:%s.%s" % (parent_node.name.value, argument_definition_node.name.value))
         return await next_directive(parent_node, argument_definition_node, argument_node, value, ctx)
 
 
